@@ -176,7 +176,7 @@ namespace hs
         auto& heap  = SimHeap::get();
         auto& c     = S->o->caps;
         int   kind  = int(op.arg(0)) % 3;
-        int   pos   = int(op.arg(1)) % 4;
+        int   pos   = int(op.arg(1)) % 6;
         bool  small = S->o->name.find(".small.") != std::string::npos;
         int   idx   = 0;
         std::vector<Alloc*> mine;
@@ -203,8 +203,21 @@ namespace hs
             void* bad  = nullptr;
             char  local[64];
             const char* desc = "";
-            switch (pos)
+            switch (pos == 5 ? 3 : pos)
             {
+            case 4:
+            {
+                // inside a live node at an offset that keeps the node's natural alignment (a check that only
+                // looks at the alignment of the address cannot tell it from a node)
+                std::size_t al = 1;
+                while (al < 16 && ns % (al * 2) == 0)
+                    al *= 2;
+                if (mine.empty() || ns / al < 2)
+                    return;
+                bad  = mine[std::size_t(op.arg(2)) % mine.size()]->p + al * (1 + std::size_t(op.arg(2)) % (ns / al - 1));
+                desc = "an address inside a live node, off the node boundary but aligned like a node";
+                break;
+            }
             case 0:
                 bad  = heap.harness_alloc(64, 16, 2);
                 desc = "memory of another allocator";
@@ -263,21 +276,33 @@ namespace hs
                     nodes.push_back(a);
             if (nodes.size() < 4)
                 return;
-            Alloc*      victim = pos == 0 ? nodes.front() : pos == 1 ? nodes.back() : nodes[nodes.size() / 2];
+            // pos 4 / 5: the neighbour (by address) below / above the most recently freed node
+            std::size_t pair   = std::size_t(op.arg(2)) % (nodes.size() - 1);
+            Alloc*      victim = pos == 0 ? nodes.front() :
+                                 pos == 1 ? nodes.back() :
+                                 pos == 4 ? nodes[pair] :
+                                 pos == 5 ? nodes[pair + 1] :
+                                            nodes[nodes.size() / 2];
+            Alloc*      then   = pos == 4 ? nodes[pair + 1] : pos == 5 ? nodes[pair] : nullptr;
             const char* desc   = pos == 0 ? "lowest address" :
                                  pos == 1 ? "highest address" :
                                  pos == 2 ? "most recently freed" :
+                                 pos == 4 ? "the neighbour below the most recently freed node" :
+                                 pos == 5 ? "the neighbour above the most recently freed node" :
                                             "middle of the free list";
             std::snprintf(what, sizeof what, "%s: second deallocate_node of a node that is already free (%s)",
                           S->o->name.c_str(), desc);
             Alloc v  = *victim;
             Alloc o1 = *nodes[1], o2 = *nodes[nodes.size() - 2];
+            Alloc th = then ? *then : v;
             auto  o  = in_child(
                 [&]
                 {
                     // valid releases first (in the child only)
                     do_free(shadow_.take(v.p));
-                    if (pos != 2)
+                    if (then)
+                        do_free(shadow_.take(th.p));
+                    else if (pos != 2)
                     {
                         if (o1.p != v.p)
                             do_free(shadow_.take(o1.p));
